@@ -1,8 +1,26 @@
 """psvc.timeabs -- calendar values abstracted to integers (microseconds): exact integer arithmetic, no overflow.
 
 TD/DT are subclasses of timedelta/datetime (so isinstance checks and pydantic's assignment accept them) whose
-value is the attribute ``us`` -- a python int natively, a symbolic int under the engine."""
+value is the attribute ``us`` -- a symbolic int under the engine.  They answer the public API of the real
+classes from that integer (days / seconds / microseconds / total_seconds(), + - * // comparisons), and the
+``datetime`` module seen by the code under verification builds them whenever a symbolic number reaches the
+``timedelta(...)`` constructor -- so that code which takes a calendar value apart and rebuilds it stays inside
+the abstraction.  Natively the scenarios use the real classes; ``us_of`` reads both.
+
+Assumed (not proved): that datetime.timedelta/datetime implement exactly this integer arithmetic (they are
+documented to: a timedelta is a normalised (days, seconds, microseconds) triple of an exact integer number of
+microseconds)."""
 import datetime
+import types
+
+US_SECOND = 10**6
+US_DAY = 86400 * US_SECOND
+EPOCH = datetime.datetime(2000, 1, 1)
+_ONE_US = datetime.timedelta(microseconds=1)
+
+
+def _is_real_number(x):
+    return isinstance(x, (int, float)) and not hasattr(x, "term")
 
 
 class TD(datetime.timedelta):
@@ -13,17 +31,81 @@ class TD(datetime.timedelta):
         o.us = us
         return o
 
+    # ---- the (days, seconds, microseconds) view of the real class
+    @property
+    def days(self):
+        return self.us // US_DAY
+
+    @property
+    def seconds(self):
+        return (self.us // US_SECOND) % 86400
+
+    @property
+    def microseconds(self):
+        return self.us % US_SECOND
+
+    def total_seconds(self):
+        return self.us / US_SECOND
+
+    # ---- arithmetic
     def __mul__(self, k):
+        if isinstance(k, datetime.timedelta):
+            return NotImplemented
         return TD(k * self.us)
 
     __rmul__ = __mul__
 
     def __add__(self, o):
-        if isinstance(o, DT):
-            return DT(self.us + o.us)
-        return TD(self.us + o.us)
+        if isinstance(o, datetime.datetime):
+            return DT(self.us + us_of(o))
+        if isinstance(o, datetime.timedelta):
+            return TD(self.us + us_of(o))
+        return NotImplemented
 
     __radd__ = __add__
+
+    def __sub__(self, o):
+        if isinstance(o, datetime.timedelta):
+            return TD(self.us - us_of(o))
+        return NotImplemented
+
+    def __rsub__(self, o):
+        if isinstance(o, datetime.datetime):
+            return DT(us_of(o) - self.us)
+        if isinstance(o, datetime.timedelta):
+            return TD(us_of(o) - self.us)
+        return NotImplemented
+
+    def __neg__(self):
+        return TD(-self.us)
+
+    def __floordiv__(self, o):
+        if isinstance(o, datetime.timedelta):
+            return self.us // us_of(o)
+        return TD(self.us // o)
+
+    def __eq__(self, o):
+        return isinstance(o, datetime.timedelta) and self.us == us_of(o)
+
+    def __ne__(self, o):
+        return not isinstance(o, datetime.timedelta) or self.us != us_of(o)
+
+    def __lt__(self, o):
+        return self.us < us_of(o)
+
+    def __le__(self, o):
+        return self.us <= us_of(o)
+
+    def __gt__(self, o):
+        return self.us > us_of(o)
+
+    def __ge__(self, o):
+        return self.us >= us_of(o)
+
+    __hash__ = object.__hash__
+
+    def __bool__(self):
+        return bool(self.us != 0)
 
     def __repr__(self):
         return f"TD({self.us})"
@@ -46,9 +128,43 @@ class DT(datetime.datetime):
         return o
 
     def __add__(self, o):
-        return DT(self.us + o.us)
+        if isinstance(o, datetime.timedelta):
+            return DT(self.us + us_of(o))
+        return NotImplemented
 
     __radd__ = __add__
+
+    def __sub__(self, o):
+        if isinstance(o, datetime.datetime):
+            return TD(self.us - us_of(o))
+        if isinstance(o, datetime.timedelta):
+            return DT(self.us - us_of(o))
+        return NotImplemented
+
+    def __rsub__(self, o):
+        if isinstance(o, datetime.datetime):
+            return TD(us_of(o) - self.us)
+        return NotImplemented
+
+    def __eq__(self, o):
+        return isinstance(o, datetime.datetime) and self.us == us_of(o)
+
+    def __ne__(self, o):
+        return not isinstance(o, datetime.datetime) or self.us != us_of(o)
+
+    def __lt__(self, o):
+        return self.us < us_of(o)
+
+    def __le__(self, o):
+        return self.us <= us_of(o)
+
+    def __gt__(self, o):
+        return self.us > us_of(o)
+
+    def __ge__(self, o):
+        return self.us >= us_of(o)
+
+    __hash__ = object.__hash__
 
     def __repr__(self):
         return f"DT({self.us})"
@@ -63,3 +179,60 @@ class DT(datetime.datetime):
 
     def __reduce__(self):
         return (DT, (self.us,))
+
+
+def us_of(x):
+    """microseconds of a calendar value: since EPOCH for an instant, the length for a span (abstract or real)"""
+    if isinstance(x, (TD, DT)):
+        return x.us
+    if isinstance(x, datetime.datetime):
+        return (x - EPOCH) // _ONE_US
+    if isinstance(x, datetime.timedelta):
+        return x // _ONE_US
+    raise TypeError(f"not a calendar value: {x!r}")
+
+
+def span(us, symbolic):
+    """a time span of `us` microseconds: abstract under the engine, the real class natively"""
+    return TD(us) if symbolic else datetime.timedelta(microseconds=us)
+
+
+def instant(us, symbolic):
+    return DT(us) if symbolic else EPOCH + datetime.timedelta(microseconds=us)
+
+
+class _TimedeltaMeta(type):
+    """``timedelta`` as seen by the code under verification: builds the real class from real numbers, the
+    abstract one as soon as an argument is symbolic; isinstance / annotations mean the real class"""
+
+    def __call__(cls, days=0, seconds=0, microseconds=0, milliseconds=0, minutes=0, hours=0, weeks=0):
+        args = (days, seconds, microseconds, milliseconds, minutes, hours, weeks)
+        if all(_is_real_number(a) for a in args):
+            return datetime.timedelta(days, seconds, microseconds, milliseconds, minutes, hours, weeks)
+        if any(isinstance(a, float) for a in args):
+            from .sym import Unsupported
+
+            raise Unsupported("timedelta() with a symbolic and a fractional argument")
+        us = microseconds + 1000 * milliseconds + US_SECOND * seconds + 60 * US_SECOND * minutes + 3600 * US_SECOND * hours + US_DAY * days + 7 * US_DAY * weeks
+        return TD(us)
+
+    def __instancecheck__(cls, obj):
+        return isinstance(obj, datetime.timedelta)
+
+    def __subclasscheck__(cls, sub):
+        return issubclass(sub, datetime.timedelta)
+
+
+class timedelta(metaclass=_TimedeltaMeta):
+    _psvc_real = datetime.timedelta
+    min = datetime.timedelta.min
+    max = datetime.timedelta.max
+    resolution = datetime.timedelta.resolution
+
+
+def shim_module():
+    """the ``datetime`` module handed to the code under verification"""
+    m = types.ModuleType("datetime")
+    m.__dict__.update({k: v for k, v in vars(datetime).items() if not k.startswith("__")})
+    m.timedelta = timedelta
+    return m
